@@ -351,7 +351,7 @@ def judge(ctx, name, kind, K, ref, vid, vclass, v):
 def run(ctx):
     atoms = atomic_specs()
     specs = [(nm,) + atoms[nm] for nm in atoms]
-    nnest = ctx.scale(500, 5000)
+    nnest = ctx.scale(500, 20000)
     depth = ctx.scale(2, 3)
     for i in range(nnest):
         specs.append(gen_nesting(ctx.rng("nest", i), atoms, depth))
